@@ -142,7 +142,7 @@ def build_view(src, layout, space_sep=False):
         o = it.h.objs[args[0].name]
         t = o.get('text')
         return t if isinstance(t, str) else 'v'
-    heap = H.Heap(src.mod(PM), field_alias={'_previous_node': 'previous_node'}, extra_modules=[src.mod('_util'), src.mod(TK)],
+    heap = H.Heap(src.mod(PM), field_alias={'_previous_node': 'previous_node', '_parent_element': 'parent_element'}, extra_modules=[src.mod('_util'), src.mod(TK)],
                   opaque_ctors={'Deb822WhitespaceToken', 'Deb822NewlineAfterValueToken', 'Deb822ValueContinuationToken', 'Deb822CommentToken'},
                   hooks={'render': render, 'factory': factory, 'sepfactory': sepfactory, '.convert_to_text': conv, '_strI': lambda it, a, k: a[0]})
     objs, vals = [], []
@@ -793,7 +793,7 @@ def r4_writeback(rep, src):
             lines = it.seq(args[0])
             log.append(('parse', ''.join(str(x) for x in lines)))
             return it.h.alloc('Deb822FileElement', {'err': perr}, name='@reparsed')
-        heap = H.Heap(mod, field_alias={'_previous_node': 'previous_node'}, extra_modules=[src.mod('_util'), src.mod(TK), src.mod('_deb822_repro._util')], hooks={
+        heap = H.Heap(mod, field_alias={'_previous_node': 'previous_node', '_parent_element': 'parent_element'}, extra_modules=[src.mod('_util'), src.mod(TK), src.mod('_deb822_repro._util')], hooks={
             'parse_deb822_file': parse,
             '.find_first_error_element': lambda it, a, k: it.h.alloc('Deb822ErrorElement', {}, name='@error') if it.h.objs[a[0].name]['err'] else None,
             '.get_kvpair_element': lambda it, a, k: it.h.newkv,
